@@ -37,6 +37,7 @@ Fixpoint need (l : list N) (o : op) : N :=
   | OShiftInt z => n + lenN (dec_of_Z z) + 1
   | OShiftBool _ => n + 6
   | OWithWord _ a sep => n + lenN (lit_of l a) + 2 * lenN sep + 1
+  | OIndented k _ => n * (k + 1) + k + 1
   | OPrealloc k => k + 1
   | OShrink extra => n + 1 + extra
   | OReplaceS _ wm _ _ | OWithReplS _ wm _ _ => n + lenN (lit_of l wm) * n + 1
@@ -194,6 +195,7 @@ Local Notation without_prefix_nc_loop_spec := (StrProd.without_prefix_nc_loop_sp
 Local Notation without_prefix_ch_nc_spec := (StrProd.without_prefix_ch_nc_spec M TH PG OV jk M_pos TH_ge PG_pos PG_le OV_lt M_le).
 Local Notation strip_ch_prefix_nc_suffix := (StrProd.strip_ch_prefix_nc_suffix M TH PG OV jk M_pos TH_ge PG_pos PG_le OV_lt M_le).
 Local Notation with_word_spec := (StrProd.with_word_spec M TH PG OV jk M_pos TH_ge PG_pos PG_le OV_lt M_le).
+Local Notation indented_spec := (StrProd.indented_spec M TH PG OV jk M_pos TH_ge PG_pos PG_le OV_lt M_le).
 Local Notation subj_ok := (StrProd.subj_ok M).
 Local Notation step1 := (step1 M TH PG OV jk true).
 Local Notation mutate := (mutate M TH PG OV jk true).
@@ -487,6 +489,9 @@ Proof.
     + rewrite (osrc_len s a I). now apply lit_len.
     + rewrite (osrc_len s a I). lia.
     + eexists; splits; [reflexivity| |exact I']. f_equal. now rewrite A', osrc_bytes.
+  - (* IndentedBy *)
+    destruct (indented_spec s n ch Sb) as (I' & A'); [rewrite <- Ls; exact Nd|].
+    eexists; splits; [reflexivity|f_equal; exact A'|exact I'].
 Qed.
 
 (* ---------------------------------------------------------------- one step *)
